@@ -112,6 +112,8 @@ type Upload struct {
 	Patches   int
 	LastChunk int // length of the last accepted PATCH body
 	cut       bool
+	Moved     bool // LocRelocate: the session now lives under uploads/moved/
+	movedSaid bool // the absolute new location has been announced once
 }
 
 type Repo struct {
@@ -140,6 +142,7 @@ type Knobs struct {
 	AnonymousMount        bool   // grant a mount without "from" when any repository holds the blob
 	ChunkMin              int    // OCI-Chunk-Min-Length announced on upload POST (0: none)
 	ChunkMinEnforce       bool   // a chunk that follows one below the minimum is refused with 400
+	LocRelocate           bool   // after the first chunk the session moves to another path prefix (announced once as an absolute path), later Locations are relative to that new directory, and the old URL answers 404
 	LocAbsolute           bool   // absolute upload Location
 	LocQuery              bool   // Location carries a query string
 	LocChanges            bool   // Location changes on every PATCH
@@ -523,13 +526,21 @@ func ServeBytes(req *simnet.Request, b []byte, dig string) *simnet.Response {
 
 func (g *Reg) location(req *simnet.Request, repo string, u *Upload) string {
 	loc := "/v2/" + repo + "/blobs/uploads/" + u.ID
+	if u.Moved {
+		if u.movedSaid {
+			loc = u.ID // relative to the directory the session moved to
+		} else {
+			loc = "/v2/" + repo + "/blobs/uploads/moved/" + u.ID
+			u.movedSaid = true
+		}
+	}
 	if g.K.LocChanges {
 		loc += "-g" + strconv.Itoa(u.Gen)
 	}
 	if g.K.LocQuery {
 		loc += "?state=s" + strconv.Itoa(u.Gen) + "&x=1"
 	}
-	if g.K.LocAbsolute {
+	if g.K.LocAbsolute && strings.HasPrefix(loc, "/") {
 		loc = req.Scheme + "://" + req.Host + loc
 	}
 	return loc
@@ -633,9 +644,10 @@ func (g *Reg) uploads(req *simnet.Request, repo, id string, q url.Values) *simne
 		}
 		return r
 	}
-	u := g.findUpload(rp, id)
-	if u == nil {
-		return resp(404, "BLOB_UPLOAD_UNKNOWN")
+	viaMoved := strings.HasPrefix(id, "moved/")
+	u := g.findUpload(rp, strings.TrimPrefix(id, "moved/"))
+	if u == nil || u.Moved != viaMoved {
+		return resp(404, "BLOB_UPLOAD_UNKNOWN") // (also: the URL the session has moved away from)
 	}
 	switch req.Method {
 	case "GET":
@@ -683,6 +695,9 @@ func (g *Reg) uploads(req *simnet.Request, repo, id string, q url.Values) *simne
 		u.Data = append(u.Data, body...)
 		if g.K.LocChanges {
 			u.Gen++
+		}
+		if g.K.LocRelocate && !u.Moved {
+			u.Moved = true
 		}
 		status := 202
 		if g.K.Early201 && u.Patches > 1 && len(body) == len(req.Body) && len(body) > 0 && false {
